@@ -50,6 +50,7 @@ AnsAlts(e) ==
   ELSE IF h = "events" THEN {[DefAns EXCEPT !.kind = k, !.status = s] : k \in {"ok"}, s \in {204, 404, 503}}
                             \cup {[DefAns EXCEPT !.kind = "badaddr"], [DefAns EXCEPT !.kind = "auth"], [DefAns EXCEPT !.kind = "hop"]}
   ELSE {[DefAns EXCEPT !.kind = k] : k \in {"err", "panic", "cancel", "timeout"}}
+       \cup {[DefAns EXCEPT !.kind = "apierr", !.status = st] : st \in {400, 404, 503}}
        \cup (IF rk = "duties" THEN {[DefAns EXCEPT !.meta = m] : m \in {"nil", "noeo", "nodroot", "badeo", "baddroot"}} ELSE {})
        \cup (IF rk \in {"duties", "sduties", "vals", "val", "data"} /\ h # "AttestationData" /\ h # "SyncCommitteeContribution"
                THEN {[DefAns EXCEPT !.n = n] : n \in {0, 2}} ELSE {})
@@ -77,13 +78,14 @@ Others ==
      params |-> <<>>, body |-> [enc |-> "json", form |-> IF m \in {"POST", "PUT"} THEN "ok" ELSE "empty"], bfork |-> "none",
      bcv |-> "", ans |-> a, builder |-> FALSE, sent |-> <<"o1">>]
     : m \in Methods, t \in {"none", "json", "ssz", "text"},
-      a \in {[DefAns EXCEPT !.kind = k, !.status = s] : k \in {"ok"}, s \in {200, 204, 404, 503}} \cup {[DefAns EXCEPT !.kind = k] : k \in {"err", "cancel", "timeout"}} }
+      a \in {[DefAns EXCEPT !.kind = k, !.status = s] : k \in {"ok"}, s \in {200, 204, 404, 503}} \cup {[DefAns EXCEPT !.kind = k] : k \in {"err", "cancel", "timeout"}}
+           \cup {[DefAns EXCEPT !.kind = "apierr", !.status = st] : st \in {400, 404, 503}} }
 Cases == UNION {Bases(e) : e \in Endpoints} \cup UNION {Alts(b) : b \in UNION {AltBases(e) : e \in Endpoints}} \cup Others
 
 \* the scripted environment of the design check
 RetOf(cc) == [kind |-> cc.ans.kind, objs |-> [i \in 1..cc.ans.n |-> "r"], ver |-> cc.ans.ver, blinded |-> cc.ans.blinded, nofield |-> cc.ans.nofield,
-              ev |-> "7", cv |-> "9", meta |-> cc.ans.meta, eo |-> "true", droot |-> "0xdd"]
-PRetOf(cc) == [kind |-> IF cc.ans.kind \in {"err", "cancel", "timeout"} THEN cc.ans.kind ELSE "ok", status |-> cc.ans.status, hdr |-> "up", body |-> "b"]
+              ev |-> "7", cv |-> "9", meta |-> cc.ans.meta, eo |-> "true", droot |-> "0xdd", status |-> cc.ans.status]
+PRetOf(cc) == [kind |-> IF cc.ans.kind \in {"err", "cancel", "timeout", "apierr"} THEN cc.ans.kind ELSE "ok", status |-> cc.ans.status, hdr |-> "up", body |-> "b"]
 MCInit == c \in Cases /\ InitRun
 MCNext == \/ Dispatch \/ Parse \/ RefuseWrongFork \/ Respond \/ EventsBadAddr \/ PRespond
           \/ CtxEnd(ImplCtxEnd(Blocked))
